@@ -287,6 +287,8 @@ func RunPipelined(cfg HSConfig, plain []byte, readMax func() int) (hsErrC, hsErr
 				_, werr = writer.Flush(wconn)
 			}
 		}
+		// nothing more will be written on this direction
+		lastHalf.Close()
 		if werr != nil {
 			a2b.Close()
 			b2a.Close()
